@@ -17,6 +17,14 @@ class frozenlist(list):  # type: ignore[type-arg]
     Raises a `GuppyComptimeError` for any operation that would mutate the list.
     """
 
+    def __init__(self, *args: Any, **kwargs: Any) -> None:
+        # `xs.__init__(ys)` on an existing list replaces its contents; only the initial
+        # construction is allowed
+        if getattr(self, "_frozen", False):
+            raise GuppyComptimeError(ERROR_MSG)
+        super().__init__(*args, **kwargs)
+        self._frozen = True
+
     def append(self, *args: Any, **kwargs: Any) -> None:
         raise GuppyComptimeError(ERROR_MSG)
 
